@@ -38,6 +38,18 @@ func runC13(c *fw.Ctx) {
 			return true
 		}
 		for i := 0; i < n; i++ {
+			if i > 0 && r.Intn(5) == 0 {
+				// a proof (or the root) is read in the middle of the batch: the unsaved nodes get their hashes now, and later
+				// operations of the same batch supersede some of them before they were ever stored
+				if w0 := t.Weight(); w0 > 0 && r.Intn(2) == 0 {
+					c.Tracef("GetBlockProof in the middle of the batch")
+					_, _, _ = t.GetBlockProof(1 + uint64(r.Intn(int(w0))))
+				} else {
+					c.Tracef("Root() in the middle of the batch")
+					_ = t.Root()
+				}
+				c.Count("hash_reads_in_the_middle_of_a_batch", 1)
+			}
 			keys := m.Keys()
 			x := r.Intn(12)
 			switch {
@@ -377,7 +389,7 @@ func init() {
 			return 24000
 		},
 		Run: runC13,
-		Floors: map[string]int64{"checkpoints_at_a_content_saved_before": 2500, "rollbacks": 20000, "rollback_via:Rollback": 8000, "rollback_via:RollbackTrie": 8000, "gc_between_commit_and_rollback": 8000, "change:unchanged-rewrite": 3000, "change:del-readd-identical": 3000,
+		Floors: map[string]int64{"hash_reads_in_the_middle_of_a_batch": 15000, "checkpoints_at_a_content_saved_before": 2500, "rollbacks": 20000, "rollback_via:Rollback": 8000, "rollback_via:RollbackTrie": 8000, "gc_between_commit_and_rollback": 8000, "change:unchanged-rewrite": 3000, "change:del-readd-identical": 3000,
 			"change:new": 20000, "change:deleted": 5000, "post_rollback_gc_checks": 4000, "commits_after_rollback": 10000, "retried_batches_rolled_back": 4000, "rollbacks_to_a_copied_root": 3000, "empty_commits_before_rollback": 4000, "abandoned_batches_rolled_back": 2500, "gc_passes_on_the_uncommitted_batch": 5000, "batches_that_empty_the_trie": 800, "proofs_read_on_the_uncommitted_batch": 3000, "uncommitted_changes_on_top_of_the_committed_batch": 2000, "checkpoints_without_SaveRoot": 4000},
 		Assumptions: []string{"at most one GC pass between the commit and the rollback (the property's domain)"},
 	})
